@@ -14,7 +14,8 @@ ASSUMPTIONS = [
     "SummaryReporterV2 (not wired to the configuration: SummaryReporter = SummaryReporterV1) is not covered; the collector is driven through its public visitor API",
 ]
 RULE = ("final model of seeded random runs (trees, outcomes, selections, --stop/abort remainders, hook errors, dry-run) through the "
-        "reporter (V1 tables, all five format functions) and the collector; non-trivial = at least two different scenario statuses in the run")
+        "reporter (V1 tables, all five format functions) and the collector; runs over features whose scenarios share titles (the failing / "
+        "errored lists are about scenarios, not titles); non-trivial = at least two different scenario statuses in the run")
 LEVEL_TEXT = ("Theorems: for every result forest whose statuses are in the documented ranges - and run_statuses_in_range proves that "
               "every forest produced by run_model is - the reporter's and the collector's walks raise no KeyError, each per-status "
               "count equals the census, counts add up to the number of elements, the failing/errored lists are exactly the "
@@ -283,8 +284,81 @@ def oracle_v2(case, obs):
     return []
 
 
+def impl_titles(case):
+    """features whose scenarios share titles (within a feature under different rules, and across features): the
+    failing / errored lists are about scenarios, not about titles"""
+    from behave.configuration import Configuration
+    from behave.runner import ModelRunner
+    from behave.step_registry import StepRegistry
+    from behave.parser import parse_feature
+    from behave.reporter.summary import SummaryReporterV1
+    from behave.summary import SummaryCollector
+    registry = StepRegistry()
+
+    def impl(context, kind):
+        if kind == "fail":
+            assert False, "no"
+        if kind == "error":
+            raise RuntimeError("boom")
+    registry.add_step_definition("given", "it does {kind}", impl)
+    features = []
+    for fi, scens in enumerate(case["features"]):
+        lines = ["Feature: F%d" % fi]
+        in_rule = False
+        for (title, kind, rule) in scens:
+            if rule and not in_rule:
+                lines.append("  Rule: R%d" % fi)
+                in_rule = True
+            lines.append("    Scenario: %s" % title)
+            lines.append("      Given it does %s" % kind)
+        features.append(parse_feature("\n".join(lines) + "\n", filename="f%d.feature" % fi))
+    config = Configuration(["--no-color"], load_config=False)
+    rep = SummaryReporterV1(config)
+    rep.stream = io.StringIO()
+    config.reporters = [rep]
+    runner = ModelRunner(config, features, step_registry=registry)
+    with contextlib.redirect_stdout(io.StringIO()):
+        runner.run()
+    loc = lambda sc: "%s:%d" % (sc.filename, sc.line)
+    census = [(loc(sc), sc.status.name) for f in features for sc in f.walk_scenarios()]
+    col = SummaryCollector()
+    col.visit_many(features)
+    return {"failing": [loc(x) for x in rep.failed_scenarios], "errored": [loc(x) for x in rep.errored_scenarios],
+            "collector_failing": [loc(x) for x in col.failed_scenarios], "collector_errored": [loc(x) for x in col.errored_scenarios],
+            "census": census, "printed": rep.stream.getvalue(),
+            "scenario_table": {k: v for k, v in rep.scenario_summary.items() if v}}
+
+
+def oracle_titles(case, obs):
+    out = []
+    want_fail = [l for l, st in obs["census"] if st == "failed"]
+    want_err = [l for l, st in obs["census"] if st in ERR]
+    for who, fk, ek in (("reporter", "failing", "errored"), ("collector", "collector_failing", "collector_errored")):
+        if obs[fk] != want_fail:
+            out.append(("%s lists failing scenarios %s, the failed ones are %s" % (who, obs[fk], want_fail), "%s-failing-list-same-titles" % who))
+        if obs[ek] != want_err:
+            out.append(("%s lists errored scenarios %s, the error-class ones are %s" % (who, obs[ek], want_err), "%s-errored-list-same-titles" % who))
+    for l in want_fail + want_err:
+        if l not in obs["printed"]:
+            out.append(("the printed summary does not mention the unsuccessful scenario at %s" % l, "printed-list-same-titles"))
+            break
+    return out
+
+
 def suites(tier, seed):
     rnd = random.Random(seed * 69069 + 14)
+    tcases = []
+    for _ in range(300 if tier == "thorough" else 60):
+        feats = []
+        for _f in range(rnd.randint(1, 3)):
+            n = rnd.randint(1, 5)
+            k = rnd.randint(0, n)
+            feats.append([(rnd.choice(["Checkout works", "Login", "X"]), rnd.choice(["pass", "fail", "fail", "error"]), i >= k)
+                          for i in range(n)])
+        tcases.append({"features": feats})
+    titles = {"name": "same_titles", "cases": tcases, "impl": impl_titles, "oracle": oracle_titles,
+              "nontrivial": lambda c, o: len(o["census"]) > len(set(t for f in c["features"] for (t, _k, _r) in f)),
+              "bound": "%d runs over features whose scenarios share titles within and across features" % len(tcases)}
     n = 4000 if tier == "thorough" else 700
     cases = []
     for i in range(n):
@@ -294,7 +368,7 @@ def suites(tier, seed):
         cases.append(p)
     v2 = {"name": "reporter_v2", "cases": [{"n": 1}, {"n": 2}], "impl": impl_v2, "oracle": oracle_v2,
           "bound": "the unwired SummaryReporterV2 class on a one-scenario feature"}
-    return [v2, {"name": "summaries", "cases": cases, "impl": impl_summary, "oracle": oracle, "nontrivial": nontrivial,
+    return [v2, titles, {"name": "summaries", "cases": cases, "impl": impl_summary, "oracle": oracle, "nontrivial": nontrivial,
              "histogram": rc.histogram, "shrink": rc.shrink_program,
              "bound": "%d seeded random runs x {reporter tables, collector, 5 formats x 4 kinds}" % n,
              "coq": {"header": HEADER, "in_ty": "cfgdata * list feature",
